@@ -72,11 +72,14 @@ shape = [4, 4], type = oper, isherm = False
     if not isinstance(offsets, list):
         offsets = [offsets]
     if len(offsets) == 1 and offsets[0] != 0:
-        isherm = False
+        # A single off-diagonal is only Hermitian when it is zero.
+        isherm = not np.any(diagonals)
         isunitary = False
     elif offsets == [0]:
-        isherm = np.all(np.imag(diagonals) <= settings.core["atol"])
-        isunitary = np.all(np.abs(diagonals) - 1 <= settings.core["atol"])
+        isherm = np.all(np.abs(np.imag(diagonals)) <= settings.core["atol"])
+        isunitary = np.all(
+            np.abs(np.abs(diagonals) - 1) <= settings.core["atol"]
+        )
     else:
         isherm = None
         isunitary = None
